@@ -1889,6 +1889,28 @@ def tree_of(F, root):
     return [F.bodies[p] for p in out]
 
 
+
+def is_lookup_or_err(F, b, look, err_variant=None):
+    """the function returns Ok(look) when the lookup `look` (an Option-valued term) is Some and an Err (optionally of the given
+    variant) when it is None — written as a match / if let, or as look.ok_or(err) / ok_or_else(|| err)"""
+    rows = [r for r in table(b) if r.end == "return"]
+    def err_ok(e):
+        if e is None:
+            return False
+        if result_variant(e) == "Err":
+            e = agg_payload(e)
+        return err_variant is None or (e is not None and e[0] == "agg" and e[2] == err_variant)
+    if any(r.sel.get(look) == "Some" and r.ret == ("agg", "std::result::Result", "Ok", (("0", look),)) for r in rows) and any(r.sel.get(look) == "None" and result_variant(r.ret) == "Err" and err_ok(r.ret) for r in rows):
+        return True
+    rt = nosite(Terms(b).return_term())
+    if rt[0] == "call" and re.search(r"Option::<T>::ok_or(_else)?$", rt[1]) and len(rt[2]) == 2 and nosite(deep_strip(rt[2][0])) == look:
+        e = rt[2][1]
+        if e[0] == "closure" and e[1] in F.bodies:
+            e = nosite(Terms(F.bodies[e[1]]).return_term())
+        return e[0] == "agg" and err_ok(e)
+    return False
+
+
 def partitioned_terms(body, removed_edges):
     """value-flow terms of the part of the function that remains when the given CFG edges are never taken
     (trace partitioning: decide a switch one way and read the values the rest of the function computes)"""
@@ -2573,7 +2595,18 @@ def _spec_eval(F, body, env, depth):
         vals.append(rt)
     uniq = list(dict.fromkeys(vals))
     if len(uniq) == 1:
-        return uniq[0]
+        v = uniq[0]
+        # delegation: the value is a call of another workspace function that is handed the known variant: evaluate that one
+        # under it (`self.graph.incident_edges_iter(v, self)` under Forward *is* `out_edges_iter(v)`)
+        if v[0] == "call" and depth < 3:
+            k = re.sub(r"\{.*\}$", "", v[1])
+            if k in F.bodies and not F.bodies[k].natural_loops():
+                henv = {j + 1: env[a[1]] for j, a in enumerate(v[2]) if a[0] == "arg" and a[1] in env}
+                if henv:
+                    r = spec_eval(F, F.bodies[k], henv, depth + 1)
+                    if r is not None:
+                        return nosite(deep_strip(substitute_args(r, tuple(v[2]))))
+        return v
     return None
 
 
